@@ -270,8 +270,8 @@ def judge_builders(ctx, rng, j):
         return
     tw_c = functions.clamp_scalar(tw)
     T = functions.derive_point_from_scalar(tw_c)
-    fields = {'sigfield1': rbytes(rng, rng.choice((1, 40))),
-              'sigfield4': rbytes(rng, 8)}
+    from ..gen import auth as _auth
+    fields = _auth.sigfields(rng, must=(1, 4))
     # the adapter builders use their sigflags argument as the message
     # selector on both sides: lock and witness take the same value
     f = rng.choice((0, 0, 8, 1))
